@@ -61,20 +61,30 @@ class ExcelType:
     def _sort_key(self, other):
         return (self.sort_precedence, self.value)
 
+    @staticmethod
+    def _result(value):
+        # Arithmetic that leaves the range of a double is #NUM! in Excel.
+        if isinstance(value, float) and not math.isfinite(value):
+            raise xlerrors.NumExcelError()
+        return Number(value)
+
     def __add__(self, other):
-        return Number(Number.cast(self).value + Number.cast(other).value)
+        return self._result(
+            Number.cast(self).value + Number.cast(other).value)
 
     def __sub__(self, other):
-        return Number(Number.cast(self).value - Number.cast(other).value)
+        return self._result(
+            Number.cast(self).value - Number.cast(other).value)
 
     def __mul__(self, other):
-        return Number(Number.cast(self).value * Number.cast(other).value)
+        return self._result(
+            Number.cast(self).value * Number.cast(other).value)
 
     def __truediv__(self, other):
         ovalue = float(Number.cast(other))
         if ovalue == 0:
             raise xlerrors.DivZeroExcelError()
-        return Number(float(Number.cast(self)) / ovalue)
+        return self._result(float(Number.cast(self)) / ovalue)
 
     def __pow__(self, other):
         base, exponent = Number.cast(self).value, Number.cast(other).value
